@@ -51,8 +51,16 @@ func genCase(t *rapid.T) Case {
 	c.DOA = c.Dial == "block" && rapid.Bool().Draw(t, "doa")
 	n := rapid.IntRange(1, 24).Draw(t, "nacts")
 	c.Acts = append(c.Acts, Act{K: "start"})
+	if c.Dial == "ok" && rapid.IntRange(0, 7).Draw(t, "lateReply") == 3 {
+		// the reply to an abandoned query arrives while other queries wait on the same connection, then silence
+		m := rapid.IntRange(1, 3).Draw(t, "others")
+		for i := 0; i < m; i++ {
+			c.Acts = append(c.Acts, Act{K: "start"})
+		}
+		c.Acts = append(c.Acts, Act{K: "cancel", J: rapid.IntRange(0, m).Draw(t, "cj")}, Act{K: "deliver_late"}, Act{K: "fire", J: rapid.IntRange(0, 3).Draw(t, "fj")})
+	}
 	for i := 0; i < n; i++ {
-		k := rapid.SampledFrom([]string{"start", "start", "start", "start_cancelled", "cancel", "deliver", "deliver", "fault", "fault", "fire", "close", "close_race", "release_dial"}).Draw(t, "k")
+		k := rapid.SampledFrom([]string{"start", "start", "start", "start_cancelled", "cancel", "deliver", "deliver", "fault", "fault", "fire", "close", "close_race", "release_dial", "deliver_late"}).Draw(t, "k")
 		a := Act{K: k, J: rapid.IntRange(0, 63).Draw(t, "j")}
 		if k == "fault" {
 			fs := []string{"eof", "readerr", "garbage", "writeerr"}
@@ -74,6 +82,7 @@ type call struct {
 	err    error
 	resp   *[]byte
 	state  string // pending | ended
+	cancelled, lateDone bool
 }
 
 const grace = 5 * time.Second
@@ -209,7 +218,7 @@ func runCase(c Case, ctx *hx.Ctx) *hx.Failure {
 		return hx.Failf("C07/call-does-not-return", "engine=%s datagram=%v: call %d did not return within %v after %s; callers still inside the transport:\n%s", c.Engine, c.Datagram, cl.idx, grace, why, strings.Join(stacks, "\n--\n"))
 	}
 	onWire := func(cl *call) bool { return len(w.Seen(cl.name)) > 0 }
-	faults, nCancel, nFire := 0, 0, 0
+	faults, nCancel, nFire, nLate := 0, 0, 0, 0
 	injectedWhilePending := false
 
 	for _, a := range c.Acts {
@@ -285,6 +294,7 @@ func runCase(c Case, ctx *hx.Ctx) *hx.Failure {
 			}
 			cl := p[a.J%len(p)]
 			cl.cancel()
+			cl.cancelled = true
 			nCancel++
 			injectedWhilePending = true
 			if f := mustEnd(cl, "its context was cancelled"); f != nil {
@@ -293,6 +303,29 @@ func runCase(c Case, ctx *hx.Ctx) *hx.Failure {
 			if cl.err == nil {
 				// a reply may have raced the cancellation only if one was delivered; none was
 				return hx.Failf("C07/cancelled-call-succeeds", "call %d was cancelled while no reply existed, yet returned a reply", cl.idx)
+			}
+		case "deliver_late":
+			// the reply to a query whose caller has given up arrives after all (its connection is still open)
+			var cand []*call
+			for _, cl := range calls {
+				if cl.cancelled && !cl.lateDone && cl.state == "ended" && onWire(cl) {
+					seen := w.Seen(cl.name)
+					if fc := w.Conn(seen[len(seen)-1].Conn); fc != nil && !fc.IsClosed() {
+						cand = append(cand, cl)
+					}
+				}
+			}
+			if len(cand) == 0 {
+				continue
+			}
+			cl := cand[a.J%len(cand)]
+			seen := w.Seen(cl.name)
+			s := seen[len(seen)-1]
+			w.Answer(s, 0, nil)
+			cl.lateDone = true
+			nLate++
+			if fc := w.Conn(s.Conn); fc != nil {
+				fc.WaitReaderIdle(time.Second)
 			}
 		case "deliver":
 			p := pending()
@@ -559,6 +592,9 @@ func runCase(c Case, ctx *hx.Ctx) *hx.Failure {
 	}
 	if nCancel > 0 {
 		ctx.Class("cancel")
+	}
+	if nLate > 0 {
+		ctx.Class("late-reply-to-abandoned-query")
 	}
 	if injectedWhilePending {
 		ctx.Nontrivial(fmt.Sprintf("%v", c))
